@@ -619,7 +619,7 @@ impl Generator {
             if let Surgery::InstallCff2Subrs { glyphs, .. } = sgy {
                 focus_gids.extend(glyphs.iter().copied().filter(|g| *g < info.num_glyphs));
             }
-            if let Surgery::InstallVarComposite { glyph, .. } = sgy {
+            if let Surgery::InstallVarComposite { glyph, .. } | Surgery::InstallVarSimple { glyph, .. } = sgy {
                 focus_gids.push(*glyph);
             }
         }
@@ -717,6 +717,7 @@ impl Generator {
                     Surgery::InstallCff2Subrs { .. } => &["CFF2"],
                     Surgery::InstallCvar { .. } => &["cvar", "cvt "],
                     Surgery::InstallVarComposite { .. } => &["glyf", "gvar"],
+                    Surgery::InstallVarSimple { .. } => &["gvar"],
                     _ => &[],
                 });
             }
@@ -1689,6 +1690,21 @@ fn gen_install(rng: &mut Rng, info: &FontInfo, prop: &str) -> Option<(FontInfo, 
                 b: pick(rng),
                 dx: *rng.pick(&[60i16, -60, 0, 127, 300, -300, 1]),
                 dy: *rng.pick(&[0i16, 3, -3, 120, -200]),
+                variant: rng.below(1 << 16),
+            };
+            let mut probe = info.disk.clone();
+            if surgery::apply(&mut probe, &s).is_ok() {
+                surgeries.push(s);
+                break;
+            }
+        }
+    }
+    if info.axes > 0 && info.has("glyf") && info.has("gvar") && info.num_glyphs >= 2 && rng.pct(p_cvar / 2) {
+        let n = u64::from(info.num_glyphs);
+        for _ in 0..6 {
+            let s = Surgery::InstallVarSimple {
+                glyph: 1 + rng.below(n.min(300) - 1) as u16,
+                amp: *rng.pick(&[1i16, 127, 128, 1000, 20000, 32767, -32768]),
                 variant: rng.below(1 << 16),
             };
             let mut probe = info.disk.clone();
